@@ -1,6 +1,7 @@
 //! Runs another engine's scenario with a trace-level log capture and searches the captured text for secrets.
 //! in : [inner_engine, n] needle_1 ... needle_n  inner tokens...
-//!        inner_engine: 1 c01_session | 18 c18_session | 13 c13_creds | 15 c15 socks connect
+//!        inner_engine: 1 c01_session | 18 c18_session | 5 TlsDemux::select on the SNI given as the only inner token (its result is logged
+//!                      with {:?} by core.rs)
 //!        needles: byte strings that must not occur in any log line
 //! out: [lines captured, leaks] then per leaked needle [needle index] excerpt(bytes of the first offending line, 240 max)
 use crate::util::*;
@@ -14,6 +15,15 @@ pub fn run(toks: Vec<Tok>) -> Vec<Tok> {
     let r = std::panic::catch_unwind(|| match inner {
         1 => crate::engines::c01::session(rest),
         18 => crate::engines::c18::session(rest),
+        5 => {
+            let ctx = crate::ctxutil::simple_ctx(&crate::ctxutil::Opts { allow_private: true, ipv6_available: true }, None);
+            let sni = String::from_utf8_lossy(&bytes(&rest[0])).to_string();
+            match trusttunnel::verif::demux::select_debug(&ctx, &[b"h2".to_vec()], &sni) {
+                Ok(text) => log::debug!("Connection meta: {}", text),
+                Err(e) => log::debug!("Dropping connection due to error: {}", e),
+            }
+            vec![]
+        }
         _ => vec![],
     });
     // let detached tasks of the scenario say their last words
